@@ -13,9 +13,9 @@ func main() {
 	c := ev.Main(map[string]string{"C06": "exploration", "C16": "exploration"})
 	switch c.Prop {
 	case "C06":
-		checkC06(c)
+		c.Isolated(func() { checkC06(c) }) // child process: an unrecoverable crash is a violation, not a dead check
 	case "C16":
-		checkC16(c)
+		c.Isolated(func() { checkC16(c) }) // child process: an unrecoverable crash is a violation, not a dead check
 	}
 	os.Exit(c.Finish())
 }
